@@ -2,6 +2,10 @@ from propsdef import KERNEL, CORR, HARNESS
 
 PROP = {
     "obligations": [
+        "own_msgpack_detected",
+        "marker_tables_agree",
+        "Xt.Props.C18.own_msgpack_first_byte",
+        "Xt.Props.C18.msgpack_roundtrip",
         "own_json_detected", "own_yaml_not_msgpack_not_json", "own_yaml_detected",
         "own_toml_detected_partial", "own_toml_excluded_when_json_accepts",
         "Xt.Props.Json.json_own_output_detected", "Xt.Props.Json.json_dash_not_value",
